@@ -2,7 +2,7 @@
 Model of the .tdda serialisation helpers of tdda/constraints/base.py:
   strip_lines (:768-780, after the fix that splits on '\n' only),
   to_preferred_order (:986-988), Constraint.to_dict_value (:447-451, :461-487),
-  get_date (:988-1012) on the three naive date layouts and the UTC-offset layout RTZ.
+  get_date (:988-1013) on the three naive date layouts and the UTC-offset layout RTZ (whole minutes, or with seconds).
 -/
 import TddaVerif.Py.Text
 namespace TddaVerif.TddaFile
@@ -132,7 +132,7 @@ def getNaiveL (s : Line) : NaiveParse × Bool :=
 
 def getNaive (s : Line) : NaiveParse := (getNaiveL s).1
 
-/-- a datetime as `datetime.datetime` holds it: the civil fields and, for an aware one, the UTC offset in minutes -/
+/-- a datetime as `datetime.datetime` holds it: the civil fields and, for an aware one, the UTC offset in seconds -/
 structure Civil where
   naive : Naive
   off : Option Int := none
@@ -142,11 +142,12 @@ deriving DecidableEq, Repr
 def Civil.valid (t : Civil) : Bool :=
   t.naive.valid && (match t.off with
     | none => true
-    | some o => decide (-1440 < o) && decide (o < 1440))
+    | some o => decide (-86400 < o) && decide (o < 86400))
 
-/-- the `+HH:MM` / `-HH:MM` suffix `str()` gives a whole-minute UTC offset -/
+/-- the `+HH:MM` / `-HH:MM` suffix `str()` gives a UTC offset (in seconds), with `:SS` when it is not a whole minute -/
 def strOffset (o : Int) : Line :=
-  (if o < 0 then '-' else '+') :: (pad 2 (o.natAbs / 60) ++ ':' :: pad 2 (o.natAbs % 60))
+  (if o < 0 then '-' else '+') :: (pad 2 (o.natAbs / 3600) ++ ':' :: pad 2 (o.natAbs / 60 % 60)) ++
+    (if o.natAbs % 60 = 0 then [] else ':' :: pad 2 (o.natAbs % 60))
 
 /-- `str(datetime)`: the naive text, followed by the offset for an aware one -/
 def strDatetime (t : Civil) : Line :=
@@ -166,19 +167,39 @@ def endsWithSeconds (b : Line) : Bool :=
     | _ => false
   plain r || plain afterFrac
 
-/-- RTZ `^(.*:\d{2}(?:\.\d+)?)([+-])(\d{2}):(\d{2})$`: the text before the offset and the offset in minutes -/
-def splitOffset (s : Line) : Option (Line × Int) :=
-  let s' := if s.getLast? == some '\n' then s.dropLast else s
-  if s'.contains '\n' || s'.length < 6 then none else
-  let body := s'.take (s'.length - 6)
-  match s'.drop (s'.length - 6) with
-  | [sg, h1, h2, c, m1, m2] =>
+/-- the `[+-]dd:dd` ending of RTZ (read from the end): the text before it and the offset in seconds -/
+def splitOffset6 (s' : Line) : Option (Line × Int) :=
+  match s'.reverse with
+  | m2 :: m1 :: c :: h2 :: h1 :: sg :: rbody =>
     if (sg == '+' || sg == '-') && isDigit h1 && isDigit h2 && c == ':' && isDigit m1 && isDigit m2 &&
-       endsWithSeconds body then
-      let mins : Nat := natOfDigits [h1, h2] * 60 + natOfDigits [m1, m2]
-      some (body, if sg == '-' then -(mins : Int) else (mins : Int))
+       endsWithSeconds rbody.reverse then
+      let secs : Nat := natOfDigits [h1, h2] * 3600 + natOfDigits [m1, m2] * 60
+      some (rbody.reverse, if sg == '-' then -(secs : Int) else (secs : Int))
     else none
   | _ => none
+
+/-- the `[+-]dd:dd:dd` ending of RTZ (an offset that is not a whole minute) -/
+def splitOffset9 (s' : Line) : Option (Line × Int) :=
+  match s'.reverse with
+  | s2 :: s1 :: c2 :: m2 :: m1 :: c :: h2 :: h1 :: sg :: rbody =>
+    if (sg == '+' || sg == '-') && isDigit h1 && isDigit h2 && c == ':' && isDigit m1 && isDigit m2 && c2 == ':' &&
+       isDigit s1 && isDigit s2 && endsWithSeconds rbody.reverse then
+      let secs : Nat := natOfDigits [h1, h2] * 3600 + natOfDigits [m1, m2] * 60 + natOfDigits [s1, s2]
+      some (rbody.reverse, if sg == '-' then -(secs : Int) else (secs : Int))
+    else none
+  | _ => none
+
+/-- one of the two endings -/
+def splitOffsetEnd (s' : Line) : Option (Line × Int) :=
+  match splitOffset9 s' with
+  | some r => some r
+  | none => splitOffset6 s'
+
+/-- RTZ `^(.*:\d{2}(?:\.\d+)?)([+-])(\d{2}):(\d{2})(?::(\d{2}))?$`: the text before the offset and the offset in seconds
+    (the two endings exclude each other: the sixth character from the end is a sign in one and a colon in the other) -/
+def splitOffset (s : Line) : Option (Line × Int) :=
+  let s' := if s.getLast? == some '\n' then s.dropLast else s
+  if s'.contains '\n' then none else splitOffsetEnd s'
 
 inductive DateParse
   | notDate
@@ -201,7 +222,7 @@ def getDate (s : Line) : DateParse :=
      | (_, true) => .notDate
      | (.notDate, _) => .notDate
      | (.invalid, _) => .invalid
-     | (.ok n, _) => if decide (-1440 < off) && decide (off < 1440) then .ok ⟨n, some off⟩ else .invalid)
+     | (.ok n, _) => if decide (-86400 < off) && decide (off < 86400) then .ok ⟨n, some off⟩ else .invalid)
 
 /-- scalar values of the dictionary / of constraint objects -/
 inductive Atom
